@@ -88,6 +88,10 @@ def check(ctx, report):
                 continue
             fname, what = site_key(w)
             rk = '%s|%s|%s' % (fname, what, e.split('.')[-1])
+            if what == 'int' and e.endswith('ValueError') and fname in funcs and int_args_are_digit_groups(ctx, funcs[fname]):
+                used_reviews.add(rk)
+                report.sample({'rule': 'C02.R4', 'site': fname, 'operation': 'int', 'verdict': 'every int() argument is a group of a class level pattern that matches digits only'})
+                continue
             if rk in reviewed:
                 used_reviews.add(rk)
                 if rk in TABULATED:
@@ -99,6 +103,9 @@ def check(ctx, report):
                 if reviewed_fact(rk, reviewed[rk], funcs, ctx):
                     continue
                 report.add('C02.R4', 'reviewed@' + rk, 'reviewed site changed shape: ' + reviewed[rk]['reason'])
+                continue
+            if what == 'int' and e.endswith('ValueError') and fname in funcs and int_args_are_digit_groups(ctx, funcs[fname]):
+                report.sample({'rule': 'C02.R4', 'site': fname, 'operation': 'int', 'verdict': 'every int() argument is a group of a class level pattern that matches digits only'})
                 continue
             if what == 'enumconv' and fname == 'ParserBinary.parse_numeric_flags':
                 why = flags_conversion_total(ctx, report)
@@ -134,6 +141,147 @@ def check(ctx, report):
     constructed_objects(ctx, report)
     report.floor('C02.R1', 300, 'concrete parsable classes')
     report.floor('C02.R4', 25, 'risky operation sites')
+
+
+def int_args_are_digit_groups(ctx, f):
+    """is every ``int(x)`` of the function applied to a capture group of a regular expression held in a class or module level
+    constant, and does that group match decimal digits only (one or more)?  Then int() cannot raise ValueError.  The
+    pattern is parsed with the standard library's own parser (re._parser); the match object, its ``group(k)`` /
+    ``groups()[k]`` / unpacked ``groups()`` and single-assignment locals are followed inside the function"""
+    try:
+        import re._parser as sre_parse
+        import re._constants as sre
+    except ImportError:                # pragma: no cover (python < 3.11)
+        import sre_parse
+        import sre_constants as sre
+    node = f.node
+
+    def assignments(name):
+        out = []
+        for n in ast.walk(node):
+            if isinstance(n, ast.Assign):
+                for t in n.targets:
+                    if isinstance(t, ast.Name) and t.id == name:
+                        out.append(('whole', n.value))
+                    elif isinstance(t, (ast.Tuple, ast.List)):
+                        for i, x in enumerate(t.elts):
+                            if isinstance(x, ast.Name) and x.id == name:
+                                out.append((i, n.value))
+            elif isinstance(n, (ast.For, ast.comprehension)) and any(isinstance(x, ast.Name) and x.id == name for x in ast.walk(n.target)):
+                out.append(('elem' if isinstance(n.target, ast.Name) else None, n.iter))
+            elif isinstance(n, ast.arg) and n.arg == name:
+                out.append((None, None))
+        return out
+
+    def pattern_of_match(e, depth=0):
+        """pattern string of the regular expression a match object expression comes from"""
+        if isinstance(e, ast.Name) and depth < 4:
+            defs = assignments(e.id)
+            pats = {pattern_of_match(v, depth + 1) if kind == 'whole' else None for kind, v in defs}
+            return pats.pop() if len(pats) == 1 else None
+        if isinstance(e, ast.Call) and isinstance(e.func, ast.Attribute) and e.func.attr in ('match', 'search', 'fullmatch'):
+            r = e.func.value
+            if isinstance(r, ast.Attribute) and isinstance(r.value, ast.Name) and r.value.id in ('cls', 'self') and f.cls is not None:
+                var = f.cls.resolve_var(r.attr)
+                src = getattr(var, 'node', var)
+            elif isinstance(r, ast.Name):
+                v = ctx.model.resolve_name(f.module, r.id)
+                src = getattr(v, 'node', None)
+            else:
+                src = None
+            if isinstance(src, ast.Call) and ast.unparse(src.func) in ('re.compile', 'compile') and src.args and isinstance(src.args[0], ast.Constant) \
+                    and isinstance(src.args[0].value, str) and len(src.args) == 1 and not src.keywords:
+                return src.args[0].value
+        return None
+
+    def digits_only(items):
+        for op, av in items:
+            if op in (sre.MAX_REPEAT, sre.MIN_REPEAT):
+                lo, _hi, sub = av
+                if not digits_only(list(sub)):
+                    return False
+            elif op is sre.IN:
+                for iop, iav in av:
+                    if iop is sre.RANGE and 48 <= iav[0] <= iav[1] <= 57:
+                        continue
+                    if iop is sre.LITERAL and 48 <= iav <= 57:
+                        continue
+                    if iop is sre.CATEGORY and iav is sre.CATEGORY_DIGIT:
+                        continue
+                    return False
+            elif op is sre.LITERAL and 48 <= av <= 57:
+                continue
+            else:
+                return False
+        return True
+
+    def group_is_number(pattern, k):
+        try:
+            tree = sre_parse.parse(pattern)
+        except Exception:       # pylint: disable=broad-except
+            return False
+        found = []
+
+        def walk_items(items):
+            for op, av in items:
+                if op is sre.SUBPATTERN:
+                    gid, _a, _b, sub = av
+                    if gid == k:
+                        found.append(list(sub))
+                    walk_items(list(sub))
+                elif op in (sre.MAX_REPEAT, sre.MIN_REPEAT):
+                    walk_items(list(av[2]))
+                elif op is sre.BRANCH:
+                    for alt in av[1]:
+                        walk_items(list(alt))
+        walk_items(list(tree))
+        if len(found) != 1:
+            return False
+        sub = found[0]
+        # one or more digits: at least one mandatory digit item
+        mandatory = any((op in (sre.MAX_REPEAT, sre.MIN_REPEAT) and av[0] >= 1) or op in (sre.IN, sre.LITERAL) for op, av in sub)
+        return mandatory and digits_only(sub)
+
+    def n_groups(pattern):
+        try:
+            return sre_parse.parse(pattern).state.groups - 1
+        except Exception:       # pylint: disable=broad-except
+            return 0
+
+    def digit_source(e, depth=0):
+        if depth > 4:
+            return False
+        if isinstance(e, ast.Call) and isinstance(e.func, ast.Attribute) and e.func.attr == 'group' and len(e.args) == 1 and \
+                isinstance(e.args[0], ast.Constant) and isinstance(e.args[0].value, int) and e.args[0].value >= 1:
+            pat = pattern_of_match(e.func.value)
+            return pat is not None and group_is_number(pat, e.args[0].value)
+        if isinstance(e, ast.Subscript) and isinstance(e.slice, ast.Constant) and isinstance(e.slice.value, int) and e.slice.value >= 0 and \
+                isinstance(e.value, ast.Call) and isinstance(e.value.func, ast.Attribute) and e.value.func.attr == 'groups' and not e.value.args:
+            pat = pattern_of_match(e.value.func.value)
+            return pat is not None and group_is_number(pat, e.slice.value + 1)
+        if isinstance(e, ast.Name):
+            defs = assignments(e.id)
+            if not defs:
+                return False
+            for kind, v in defs:
+                if kind == 'whole':
+                    if not digit_source(v, depth + 1):
+                        return False
+                elif isinstance(kind, int) or kind == 'elem':
+                    if not (isinstance(v, ast.Call) and isinstance(v.func, ast.Attribute) and v.func.attr == 'groups' and not v.args):
+                        return False
+                    pat = pattern_of_match(v.func.value)
+                    if pat is None:
+                        return False
+                    ks = [kind + 1] if isinstance(kind, int) else list(range(1, n_groups(pat) + 1))
+                    if not ks or not all(group_is_number(pat, k) for k in ks):
+                        return False
+                else:
+                    return False
+            return True
+        return False
+    calls = [n for n in ast.walk(node) if isinstance(n, ast.Call) and isinstance(n.func, ast.Name) and n.func.id == 'int']
+    return bool(calls) and all(len(c.args) == 1 and not c.keywords and digit_source(c.args[0]) for c in calls)
 
 
 _TAB_CACHE = {}
